@@ -17,7 +17,7 @@ use crate::tamper::{self, HashTamper, ListOp};
 pub fn pool_member<C: GenericConfig<D, F = F>>(seed: u64, stream: u64, idx: u64, flavour: u32) -> Result<Proven<C>, String> {
     let bset = gen::boundary_set();
     let mut rng = crate::mon::case_rng(seed, stream, idx);
-    let opts = GenOpts { n_ops: rng.gen_range(10..80), lookups: flavour % 2 == 1, hashing: flavour % 3 == 0, extension: true, max_table_len: 40 };
+    let opts = GenOpts { n_ops: rng.gen_range(10..80), lookups: flavour % 2 == 1, hashing: flavour % 3 == 0, extension: true, max_table_len: 40, only_base2: false };
     let (prog, inputs) = circ::gen_program(&mut rng, &bset, &opts);
     let mut config = circ::fast_config();
     match flavour % 5 {
